@@ -80,6 +80,8 @@ structure Parsed where
   ntokens : Nat
   invs : List View := []
   services : List Srv.Method := []
+  /-- per token: which of its proofs were embedded as blocks when it was issued -/
+  inlines : Array (List Bool) := #[]
 
 def derivesOf (mode : String) : Cap → Cap → Bool :=
   fun claimed delegated =>
@@ -151,9 +153,11 @@ def parseWorld (j : Json) : Except String Parsed := do
     let can ← getStr sj "can"
     let res ← getStr sj "result"
     pure ({ can := bytesOf can, desc := { d with can := bytesOf can }, handlerOk := res != "err" } : Srv.Method)
+  let inlines ← (← getArr j "tokens").mapM fun tj => do
+    (← getArr tj "inline").toList.mapM (·.getBool?)
   match tokenOf invId with
   | none => throw "no invocation token"
-  | some t => pure { W, d, inv := ⟨t, invId⟩, ntokens := toks.size, invs, services }
+  | some t => pure { W, d, inv := ⟨t, invId⟩, ntokens := toks.size, invs, services, inlines }
 
 def parseSpine (j : Json) : Except String (List SpineItem) := do
   (← j.getArr?).toList.mapM fun it => do
@@ -169,6 +173,12 @@ def strOf (b : Bytes) : String := (String.fromUTF8? (ByteArray.mk b.toArray)).ge
 def spineStr : Auth → List String
   | .root v c => [s!"{v.tok.id}:{strOf c.can}:{strOf c.rsrc}:{nbStr c.nb}"]
   | .step v c sub => s!"{v.tok.id}:{strOf c.can}:{strOf c.rsrc}:{nbStr c.nb}" :: spineStr sub
+
+def insertNat (x : Nat) : List Nat → List Nat
+  | [] => [x]
+  | y :: ys => if x ≤ y then x :: y :: ys else y :: insertNat x ys
+
+def sortNat (l : List Nat) : List Nat := l.foldr insertNat []
 
 def outStr : Srv.Out → String
   | .ok => "ok"
